@@ -94,7 +94,7 @@ def run(ctx):
     if K.build_hx(ctx) and K.build_drv(ctx):
         args = S.drv_args(facts)
         try:
-            c = K.correspondence(ctx, "C29", args, timeout=600)
+            c = K.correspondence(ctx, "C29", args, timeout=3000)
         except Exception as e:
             c = K.Corr()
             c.err = "harness did not finish: %r" % (e,)
@@ -120,7 +120,7 @@ def run(ctx):
         else:
             ctx.violation("implementation violates the property: " + what, rep, tag=sig or "impl")
     if ctx.thorough:
-        ok, out = K.leanchecker(ctx, ["Hv.Props.C29", "Hv.Storage.NameLemmas"])
+        ok, out = K.leanchecker(ctx, ["Hv.Props.C29", "Hv.Storage.NameLemmas", "Hv.Storage.CompactLemmas", "Hv.Storage.Listing"])
         ctx.cov["leanchecker"] = "ok" if ok else out[-500:]
         if not ok:
             ctx.violation("leanchecker rejected the compiled proofs", {"log": out[-2000:]}, tag="leanchecker", found_input=False)
